@@ -90,8 +90,8 @@ def design(ctx, quick):
         model_check(ctx, SPEC, "MC_AuthSession", "MC_AuthSession.cfg" if quick else "MC_AuthSession_thorough.cfg", timeout=3000)
         # every interleaving of 3 concurrent presenters mixed with sequential presentations / password change / session deletion
         model_check(ctx, SPEC, "MC_AuthSession", "MC_AuthSession_conc.cfg", timeout=3000)
-        # DeleteSession racing a presentation in flight: holds for the ideal refresh (write back only if the document still exists);
-        # the as-coded blind Set is decided on the real code by REFRESH_PROBE
+        # DeleteSession racing a presentation in flight (as coded since fix b081bb5: the refresh is a CAS write); the real code is
+        # held to it by REFRESH_PROBE, which brings the keyed VIOLATION back if the blind Set returns
         model_check(ctx, SPEC, "MC_AuthSession", "MC_AuthSession_race.cfg", timeout=3000)
     except BaseException as ex:      # re-raised by run() in the main thread
         ctx._c12_mc_err.append(ex)
@@ -182,6 +182,15 @@ def _run(ctx, quick):
                          "the Set is undone, and the next presentations succeed; history: " + show(REFRESH_PROBES[REFRESH_PROBE]),
                          {"behaviour": REFRESH_PROBES[REFRESH_PROBE], "invariant": "SessSound", "level": "auth",
                           "real_trace": [{k: r.get(k) for k in ("a", "pr", "res", "S", "PC")} for r in rows_named(prow, REFRESH_PROBES[REFRESH_PROBE])]})
+    if not refresh_bad:      # the probe is the only trace with a deletion between the read and the refresh write: conformance of that step
+        rtr = os.path.join(ctx.scratch, "c12-refresh-probe.ndjson")
+        rr = [{"a": "Reset", "beh": 0}] + rows_named(prow, REFRESH_PROBES[REFRESH_PROBE], prefix=True)
+        write_ndjson(rtr, rr)
+        vc = validate(ctx, SPEC, "Trace_AuthSession", "Trace_AuthSession_C.cfg", rtr, env=env, tag="refresh-C")
+        ctx.sample({"refresh_race_probe": [{"a": r["a"], "pc": r["PC"][0], "ok": r["res"]["ok"], "session_exists": r["S"]["s1"]["exists"]} for r in rr[1:]]})
+        if vc.inv or not vc.accepted:
+            ctx.cov["nonconformance"] += 1
+            ctx.notes.append("pass C rejected the refresh-race probe at line %s (%s): %s" % (vc.line, vc.inv, rr[vc.line - 1] if vc.line and vc.line <= len(rr) else None))
     for inv in refresh_bad - {"SessSound"} - set(DISABLED_INVS):
         report(ctx, inv, "auth", REFRESH_PROBE, REFRESH_PROBES[REFRESH_PROBE], prow)
 
@@ -305,17 +314,20 @@ def report(ctx, inv, level, name, steps, rows):
                       "real_trace": [{k: r.get(k) for k in ("a", "u", "s", "res", "status", "U")} for r in rows_named(rows, steps)]})
 
 
-def rows_named(rows, steps):
-    # the rows of the first behaviour in `rows` whose action sequence equals steps
-    cur, acc = [], []
+def rows_named(rows, steps, prefix=False):
+    # the rows of the first behaviour in `rows` whose action sequence equals steps (prefix=True: is a prefix of steps -
+    # a presenter that finished early performs fewer steps than the behaviour lists)
+    want = [x["a"] for x in steps]
+    cur = []
     for r in rows + [{"a": "Reset"}]:
         if r["a"] == "Reset":
-            if [x["a"] for x in cur] == [x["a"] for x in steps] and cur:
+            got = [x["a"] for x in cur]
+            if cur and (got == want or (prefix and all(g in want for g in got) and got[:4] == want[:4])):
                 return cur
             cur = []
         else:
             cur.append(r)
-    return acc
+    return []
 
 
 def validate_all(ctx, trace_path):
